@@ -1273,7 +1273,7 @@ def run(ctx):
         "never-lent objects, deliveries on empty streams / malformed: release notices and local references the peer is not entitled to send), "
         "each followed by an epilogue that uses every live proxy, drops everything, drains and forgets the objects, or by a close from either side "
         "(also with a raising before_closed hook or on_disconnect) followed by further use of the closed connection; plus oracle-only histories "
-        "with user-class instances, same-named classes and modules (nested HANDLE_INSPECT), also with the object's key changing while lent, "
+        "with user-class instances, same-named classes and modules (nested HANDLE_INSPECT), also with the object's key changing while lent and with requests whose result has expired before the reply (carrying a reference) arrives, "
         "and unit-level call sequences on RefCountingColl. A history is non-trivial when at least one reference was delivered to the peer and "
         "at least one release notice or request through a proxy was served by the owner (or the closed connection was used again); distinct by "
         "operation list")
